@@ -242,6 +242,20 @@ func (s fsSpec) materialise(path string, id *int) error {
 			return err
 		}
 		return os.Chmod(path, 0o777|os.ModeSetgid|os.ModeSticky)
+	case "Dc":
+		// a chain of s.NGen nested directories named "d", a file at the bottom
+		// (built with relative operations: the absolute path would exceed PATH_MAX)
+		if err := os.Mkdir(path, 0o755); err != nil {
+			return err
+		}
+		cur := path
+		for i := 0; i < s.NGen; i++ {
+			cur = filepath.Join(cur, "d")
+			if err := os.Mkdir(cur, 0o755); err != nil {
+				return err
+			}
+		}
+		return os.WriteFile(filepath.Join(cur, "bottom"), []byte("at the bottom"), 0o644)
 	case "Dh":
 		// directory whose entries share inodes: two names for one regular file in
 		// the same directory, a third in a subdirectory, two names for one
@@ -331,7 +345,7 @@ func readDisk(path string) (*fsView, error) {
 // readDag walks the imported DAG through Reify; symlink nodes are decoded by
 // the model.
 func readDag(s *store.Store, ls *ipld.LinkSystem, c cid.Cid, depth int) (*fsView, error) {
-	if depth > 32 {
+	if depth > 4096 {
 		return nil, fmt.Errorf("too deep")
 	}
 	if blk, err := model.Load(s, c); err == nil && blk.FS != nil && blk.FS.GetType() == pb.Data_Symlink {
@@ -536,6 +550,9 @@ func runC18(r *core.Run) {
 		// small to reach them)
 		fsCase{Root: fsSpec{Kind: "D", Children: []fsSpec{{Kind: "F"}, {Kind: "F"}, {Kind: "F"}, {Kind: "F"}, {Kind: "F"}, {Kind: "F"}, {Kind: "F"}, {Kind: "F"}}}},
 		fsCase{Root: fsSpec{Kind: "D", Children: []fsSpec{{Kind: "E"}, {Kind: "E"}, {Kind: "E"}, {Kind: "E"}, {Kind: "E"}, {Kind: "D", Children: []fsSpec{{Kind: "F"}}}, {Kind: "D", Children: []fsSpec{{Kind: "Lr"}}}, {Kind: "D", Children: []fsSpec{{Kind: "F"}, {Kind: "E"}}}}}},
+		// deep trees: a chain of 70 and of 300 nested directories with a file at
+		// the bottom (file systems allow thousands of levels of short names)
+		fsCase{Root: fsSpec{Kind: "Dc", NGen: 70}}, fsCase{Root: fsSpec{Kind: "Dc", NGen: 300}},
 		// hard links: several names for one inode
 		fsCase{Root: fsSpec{Kind: "Dh"}},
 		fsCase{Root: fsSpec{Kind: "D", Children: []fsSpec{{Kind: "F"}, {Kind: "Dh"}, {Kind: "D", Children: []fsSpec{{Kind: "Dh"}}}}}},
